@@ -1967,12 +1967,16 @@ func (d *Data) CopyPropertiesFrom(src datastore.DataService, fs storage.FilterSp
 	}
 
 	// TODO -- Handle mutable data that could be potentially altered by filter.
+	d.mlMu.Lock()
+	d2.mlMu.RLock()
 	d.MaxLabel = make(map[dvid.VersionID]uint64, len(d2.MaxLabel))
 	for k, v := range d2.MaxLabel {
 		d.MaxLabel[k] = v
 	}
 	d.MaxRepoLabel = d2.MaxRepoLabel
 	d.NextLabel = d2.NextLabel
+	d2.mlMu.RUnlock()
+	d.mlMu.Unlock()
 
 	d.IndexedLabels = d2.IndexedLabels
 	d.setMaxDownresLevel(d2.MaxDownresLevel)
